@@ -222,13 +222,35 @@ def check_explicit(case, R=None):
             sets = [tuple(only)]
     else:
         sets = [tuple(only)] if only else explicit_argument_sets(n, M)
+    def as_range(seq):
+        # the range object that lists the same numbers, when there is one
+        seq = list(seq)
+        if len(seq) >= 2:
+            r = range(seq[0], seq[-1] + (1 if seq[1] > seq[0] else -1), seq[1] - seq[0]) \
+                if seq[1] != seq[0] else None
+            return r if r is not None and list(r) == seq else None
+        return range(seq[0], seq[0] + 1) if seq else range(0)
+
     for idx, (kind, fl, pm, cp) in enumerate(sets):
-        for container in ((list, tuple) if idx % 7 == 0 or only else (list,)):
+        containers = [list, tuple] if idx % 7 == 0 or only else [list]
+        if not only and kind in ('valid', 'variables', 'clauses') \
+                and (as_range(pm) is not None or as_range(cp) is not None):
+            containers.append('range')       # permutations that a range object can express
+        for container in containers:
             F = mk(n, clauses)
-            args = (container(fl), container(pm), container(cp))
+            if container == 'range':
+                args = (list(fl), as_range(pm) if as_range(pm) is not None else list(pm),
+                        as_range(cp) if as_range(cp) is not None else list(cp))
+            else:
+                args = (container(fl), container(pm), container(cp))
             if only:
                 args = (fl, pm, cp)
+                if case.get('container') == 'range':
+                    args = (list(fl), as_range(pm) if as_range(pm) is not None else list(pm),
+                            as_range(cp) if as_range(cp) is not None else list(cp))
             extra = {'only': [kind, list(fl), list(pm), list(cp)]}
+            if container == 'range':
+                extra['container'] = 'range'
             try:
                 G = Shuffle(F, args[0], args[1], args[2])
             except ValueError as e:
